@@ -25,7 +25,11 @@ class GeminiProtocol(BaseGopherProtocol):
     def handle(self):
         # Be overly permissive here and ignore most request validation like
         # checking for a strict <CR><LF> or denying requests over 1024 bytes.
-        url_parts = urllib.parse.urlparse(self.request.strip())
+        try:
+            url_parts = urllib.parse.urlparse(self.request.strip())
+        except ValueError:
+            self.write_status(59, "Bad request")
+            return
 
         selector = url_parts.path
         searchrequest = url_parts.query
